@@ -325,6 +325,7 @@ fn main() {
                 ("C06", _) => p_c06::child_main(&a),
                 ("C16", "dst") => p_c06::child_main(&a),
                 ("C13", _) => p_c13::child_main(&a),
+                ("C14", _) => p_c14::child_main(&a),
                 ("C03", _) => p_c03::child_main(&a),
                 ("C04", _) => p_c04::child_main(&a),
                 ("C10", _) => p_c10::child_main(&a),
